@@ -3,6 +3,7 @@ import json
 from fractions import Fraction
 
 import cfgmodel as M
+import translate_cfg as TC
 import transforms as TR
 from cfgcheck import LangTable, finitely_ambiguous, decode_grammar, run_jobs
 from common import dec_val, close_enough
@@ -153,7 +154,14 @@ def run(ctx):
     quick = ctx.tier == "quick"
     ctx.cov["rule"] = ("random grammars x every transformation and option (trim, cotrim, binarize, separate_start, separate_terminals, nullaryremove x flags, unaryremove, unarycycleremove x flag, cnf, renumber, rename, unfold at random sites) x strings to a length bound; "
                        "the transformed grammar is read back and evaluated by the proved reference semantics (Coq `lang`) and compared with the reference value of the input grammar; T(cfg)(xs) is compared too; exact rationals on finitely ambiguous grammars, Booleans on all grammars, floats vs the Kleene limit on convergent cyclic grammars; non-trivial = non-zero weight")
-    ok, out = ctx.build(["proofs/CfgTrees.vo", "proofs/CfgChart.vo", "proofs/CkyProofs.vo", "proofs/TrimProofs.vo", "proofs/NormProofs.vo"])
+    try:
+        ctx.cov["translators"].append(TC.main())
+        ctx.obligation("translate_cfg", True)
+        tr_ok = True
+    except TC.Refuse as e:
+        ctx.obligation("translate_cfg", False, f"translator refused: {e}")
+        tr_ok = False
+    ok, out = ctx.build(["proofs/CfgTrees.vo", "proofs/CfgChart.vo", "proofs/CkyProofs.vo", "proofs/TrimProofs.vo", "proofs/NormProofs.vo", "proofs/GenCfgBridge.vo"]) if tr_ok else (False, "translator refused")
     if ok:
         ctx.prove("props/C06.v")
     else:
